@@ -1,3 +1,3 @@
-import SctpVerif.Proofs.Codec.Packet
+import SctpVerif.Proofs.Codec.Stable
 /-! Helper lemmas for the codec properties C12 / C13 / C03 (decoder part), split over
-`Proofs/Codec/{Basic,Total,Frame,RoundTrip,Chunks,Packet}.lean`. -/
+`Proofs/Codec/{Basic,Total,Frame,RoundTrip,Chunks,Packet,Stable}.lean`. -/
